@@ -187,8 +187,7 @@ PROPS["C13"] = dict(
               "C13_range_expansion_of_resolvable", "C13_fast_path", "C13_resolvable_ignores_fallbacks_general",
               "C13_resolvable_ignores_fallbacks_fast", "C13_resolvable_ignores_fallbacks_bytes",
               "C13_lines_one_at_a_time", "C13_lines_straddling_range_fails", "C13_fixed_memory"],
-    assumptions=["-m with an unresolvable bound and mixed-sign ranges that resolve to an empty interval are outside "
-                 "the statement (Unspecified_C13)", "a closed range that straddles the end of a record under -M "
+    assumptions=["mixed-sign ranges that resolve to an empty interval are outside the statement (Unspecified_C13)", "a closed range that straddles the end of a record under -M "
                  "prints the fields it has, then its fallback or fails (a fixed-memory reader cannot retract)"],
 )
 
@@ -427,10 +426,12 @@ reg("C08", gen=lambda rng, n, tier: F.c08(rng, n) + F.c08_big(rng), budget=(9000
          "Python's strict json.loads",
     theorems=[], assumptions=["serde_json's escape table as transcribed"])
 
-reg("C11", gen=lambda rng, n, tier: F.c11(rng, n), budget=(9000, 60000), absolute=False, oracle=oracle_c11,
+reg("C11", gen=lambda rng, n, tier: F.c11(rng, n) + F.c11_big(rng), budget=(9000, 60000), absolute=False, oracle=oracle_c11,
     nontrivial=lambda c, m: c.tags.get("role") == "nul" and m[0] == "0" and len(m[1]) > 1,
     rule="pairs (ARGS, I) / (-z ARGS, swap(I)) over alphabets with LF, NUL and CR for the general path, the fast "
-         "lane, -c, -l (both algorithms), --json and -M; option texts contain neither LF nor NUL",
+         "lane, -c, -l (both algorithms) and -M (the binary, and the library under a random segmentation); "
+         "the same on inputs larger than the 64 KiB buffers (a long record holding the other mode's terminator as data, "
+         "then short records); option texts contain neither LF nor NUL",
     theorems=[], assumptions=["option texts (delimiter, replacement, fillers, fallbacks) contain neither LF nor NUL"])
 
 reg("C12", gen=lambda rng, n, tier: F.c12(rng, n, exhaustive_len=(3 if tier == "quick" else 4)) + F.small_scope(rng, maxlen=(4 if tier == "quick" else 5), sample=(15 if tier == "quick" else 60)),
@@ -514,17 +515,26 @@ def c17_measure(ctx):
     plans.append(("-c, records", ["-c", "2:3"], [(k, lambda k=k: "aé€x\n".encode() * k) for k in recs]))
     plans.append(("-l forward, lines", ["-l", "2,5:7"], [(k, lambda k=k: b"line of text\n" * k) for k in recs]))
     plans.append(("-l forward open range, lines", ["-l", "3:"], [(k, lambda k=k: b"line of text\n" * k) for k in recs]))
+    # bounds far apart / at the end of the input: the lines skipped in between must not be kept
+    plans.append(("-l forward, last two lines", lambda k: ["-l", "%d,%d" % (k - 1, k)], [(k, lambda k=k: b"line of text\n" * k) for k in recs]))
+    plans.append(("-l forward, first and last line", lambda k: ["-l", "1,%d" % k], [(k, lambda k=k: b"line of text\n" * k) for k in recs]))
+    plans.append(("-l forward -z, a line in the middle", lambda k: ["-z", "-l", "%d" % (k // 2)], [(k, lambda k=k: b"line of text\0" * k) for k in recs]))
+    plans.append(("-f --json, records", ["--json", "-d", "-", "-f", "1,3"], [(k, lambda k=k: rec * k) for k in recs]))
+    plans.append(("-f -g -s -t, records", ["-d", "-", "-g", "-s", "-t", "b", "-f", "-1"], [(k, lambda k=k: b"--alpha--beta-\n" * k) for k in recs]))
+    plans.append(("-e regex, records", ["-e", "[-,]", "-f", "2:"], [(k, lambda k=k: rec * k) for k in recs]))
     results, bad = [], []
     SLACK_KB = 8 * 1024
     for name, argv, series in plans:
         vals = []
+        argv_of = argv if callable(argv) else (lambda n, a=argv: a)
         for n, mk in series:
             path = os.path.join(tmpd, "c17.in")
             with open(path, "wb") as f:
                 f.write(mk())
-            kb, rc = rss(argv, path)
+            kb, rc = rss(argv_of(n), path)
             vals.append((n, kb, rc))
         os.remove(path)
+        argv = argv_of(series[-1][0])
         results.append({"plan": name, "argv": argv, "series": [{"size": n, "peak_rss_kb": kb, "status": rc} for n, kb, rc in vals]})
         base = vals[0][1]
         for n, kb, rc in vals[1:]:
@@ -543,6 +553,7 @@ reg("C17", gen=lambda rng, n, tier: F.stream(rng, n), budget=(600, 3000), absolu
     rule="peak RSS (wait4, via /usr/bin/time) of the real binary while the input grows along the dimension the bound "
          "must not depend on: one -M line of 1, 16, 64 MB (thorough: 256 MB) without delimiters / with many / with a "
          "long unselected tail or head; 10^4..10^6 (thorough 10^7) records for -f (fast and general) and -c; as many "
-         "lines for -l with ascending bounds; growth beyond 8 MB over the smallest size is a violation; plus a "
+         "lines for -l with ascending bounds (near the top, at the very end, first and last, -z in the middle), "
+         "--json, -g -s -t and -e over records; growth beyond 8 MB over the smallest size is a violation; plus a "
          "correspondence batch on -M",
     theorems=[], assumptions=["allocator, Vec growth policy and page accounting are runtime facts: measured, not proved"])
